@@ -562,7 +562,8 @@ def formatSummaryOld (env : Env) (st : St) (obj : Obj) : Res Stan × St :=
 
 /-! ### format_toc -/
 
-/-- `format_toc` (since c422501): `get_toc` is called inside `try … except Exception: toc = None` -/
+/-- `format_toc` (since c422501): `get_toc` is called inside `try … except Exception: toc = None`;
+since e05762e no table of contents for a docstring whose own `to_stan` raises -/
 def formatToc (env : Env) (st : St) (obj : Obj) : Res (Option Stan) × St :=
   let r := ensureParsed env st obj
   match (r.2.objs obj).parsed with
@@ -573,8 +574,13 @@ def formatToc (env : Env) (st : St) (obj : Obj) : Res (Option Stan) × St :=
       | .raises _ => (.ok none, r.2)          -- except Exception: toc = None
       | .ok none => (.ok none, r.2)
       | .ok (some toc) =>
-        let s := safeToStan env r.2 toc obj .broken false
-        (.ok (some s.1), s.2)
+        -- e05762e: the entries link to the headings of the RENDERED docstring: when `to_stan` of the docstring
+        -- raises (the page shows its plain text, without headings) there is no table of contents
+        match pdToStan env pd with
+        | .raises _ => (.ok none, r.2)
+        | .returns _ =>
+          let s := safeToStan env r.2 toc obj .broken false
+          (.ok (some s.1), s.2)
     else (.ok none, r.2)
 
 /-- HISTORICAL: `format_toc` before c422501 — `get_toc` called outside any handler.
